@@ -1,15 +1,19 @@
 #!/bin/bash
-# usage: tools/trymut.sh <patch.diff> <ID> [tier]   -- apply a patch to /repo, run the check, always revert
+# usage: tools/trymut.sh <patch.diff> <ID> [tier]
+# Runs a check against a seeded change WITHOUT touching /repo: the patch is applied to a scratch git worktree of /repo's HEAD
+# (under /tmp, removed afterwards) and the check builds from there (VERIF_REPO); evidence and replays of that run go to a
+# scratch directory, so the committed evidence always describes the real tree.
 set -u
 P=$(readlink -f "$1"); ID=$2; TIER=${3:-quick}
-cd /repo || exit 3
-if ! git diff --quiet; then echo "refusing: /repo has uncommitted changes"; exit 3; fi
-if ! git apply --check "$P" 2>/dev/null; then
-  if git apply --3way --check "$P" 2>/dev/null; then :; else echo "patch does not apply: $P"; exit 3; fi
+WT=$(mktemp -d /tmp/trymut.XXXXXX); OUT=$(mktemp -d /tmp/trymut-out.XXXXXX)
+rmdir "$WT"
+git -C /repo worktree add --detach "$WT" HEAD >/dev/null 2>&1 || { echo "cannot create scratch worktree"; exit 3; }
+cleanup() { git -C /repo worktree remove --force "$WT" >/dev/null 2>&1; rm -rf "$WT" "$OUT"; }
+trap cleanup EXIT
+if ! git -C "$WT" apply "$P" 2>/dev/null; then
+  if ! git -C "$WT" apply --3way "$P" 2>/dev/null; then echo "patch does not apply: $P"; exit 3; fi
 fi
-git apply "$P" || exit 3
-cd /verif && bin/vcheck "$ID" --tier "$TIER" 2>&1 | tail -${TAIL:-6}
+cd /verif && VERIF_REPO="$WT" VERIF_SCRATCH_OUT="$OUT" bin/vcheck "$ID" --tier "$TIER" 2>&1 | sed "s|$OUT|<scratch>|g; s|$WT|<scratch-repo>|g" | tail -${TAIL:-6}
 rc=${PIPESTATUS[0]}
-git -C /repo checkout -- . 
 echo "[trymut] $ID with $(basename $(dirname $P))/$(basename $P): exit $rc"
 exit $rc
